@@ -294,6 +294,9 @@ func genC15(d *RunDesc, tier string) {
 			}
 		}
 	}
+	// one run in ten also drops owners of embedded objects and forces garbage
+	// collections (finalizers, pool clearing) between operations
+	gcRun := wl.chance(1, 10)
 	var ops []Op
 	slot := 1
 	var live []int // object slots
@@ -379,6 +382,16 @@ func genC15(d *RunDesc, tier string) {
 				op.Donor = &Ref{I: pick(wl, live)}
 			}
 			ops = append(ops, op)
+		case c < 95 && gcRun:
+			if wl.chance(1, 2) {
+				o := pick(wl, live)
+				ops = append(ops, Op{K: "inner", Obj: &Ref{I: o}, Field: pick(wl, []string{"Base", "Base", "Temporal"}), Dst: slot})
+				// the owner's slot may since be gone; later ops on it are skipped
+				live = append(live, slot)
+				slot++
+			} else {
+				ops = append(ops, Op{K: "gc"})
+			}
 		case c < 96:
 			ops = append(ops, Op{K: "lkp", Fn: wl.intn(nLookups()), SArg: pick(wl, lookupArgs), IArg: wl.intn(63), Lang: wl.intn(len(langs))})
 		default:
